@@ -19,12 +19,12 @@ CHECKS = {
             "target, duality is an involution, prior values are captured before the edit and every captured value reaches the inverse, the "
             "group inverse reverses, every constructed sub-edit is recorded in order, annotators react to inverses, and undo/redo apply the "
             "right recorded inverse once; captured ids and attribute values are tested only with `is None` (0 / 0.0 / False survive capture), and "
-            "the paint-driven action hands every primitive the pixels its caller already changed. Does not decide equality of recomputed values."),
+            "the paint-driven action hands every primitive the pixels its caller already changed, _apply never rewrites the fields the inverse is built from, and inverse() has no write effect on the recorded action. Does not decide equality of recomputed values."),
     "C02": ("part", "4 C02",
             "who-may-write analysis + symbolic sequence algebra over the history methods + per-path registration counting",
             "Decides stack ownership, the per-call shape of add_new_action / undo / redo as sequence expressions over the entry stacks "
             "(pending redo inverses are moved in order, never discarded or reversed), the pointer's linear form and that every user action "
-            "registers exactly once per top-level use, never when nested or refused. Does not decide the induction over all sequences."),
+            "registers exactly once per top-level use, never when nested or refused, and that inverse() leaves the recorded step unchanged (it is inverted again by later undos). Does not decide the induction over all sequences."),
     "C03": ("core", "4 C03",
             "abstract interpretation of user-action constructors with inlined primitives; degree/time facts at every add_edge; who-may-call",
             "Decides that every place an edge can enter a solution graph carries the merge, division and strict time-order guards on every "
@@ -42,15 +42,15 @@ CHECKS = {
     "C06": ("part", "4 C06",
             "effect analysis (who-may-write) + pairing rules inside the track annotator + CFG dominance in the id issuer",
             "Decides cache ownership, write=>bookkeeping pairing on the same node collection, handler exhaustiveness, monotone maxima and "
-            "the reserve-then-draw discipline of new node ids, remove-before-add order of bookkeeping moves (old id == new id), and the time ordering behind the neighbour query. Does not decide that the lookup queries equal a scan of the graph."),
+            "the reserve-then-draw discipline of new node ids, remove-before-add order of bookkeeping moves (old id == new id), the time ordering behind the neighbour query, that no entry is replaced wholesale, that no query picks list members by position, and that the track and lineage lookups are updated independently of each other. Does not decide that the lookup queries equal a scan of the graph."),
     "C07": ("part", "4 C07",
             "effect analysis for the single writer, who-may-call, argument provenance, path counting of the paint decomposition, guard shape",
             "Decides who writes the array with which value coupled to which node-set change, that a stroke decomposes into exactly one "
-            "sub-edit per label recording the pixel group of its own node (the painted label: all groups), that deletion happens only when no pixel remains, and that pixels reach the recording primitive."),
+            "sub-edit per label recording the pixel group of its own node (the painted label: all groups), previous labels released before the painted label is claimed, that deletion happens only when no pixel remains, that pixels reach the recording primitive unchanged, and the history shape behind undo."),
     "C08": ("part", "4 C08",
             "trigger matrix (primitive effects x annotator handlers), mutate-then-notify ordering, spacing provenance at kernel calls",
             "Decides that every mask change of a surviving node triggers recomputation after the array was written, through one kernel with "
-            "the scale-derived spacing on both paths, that update() leaves early only for accepted reasons, and that compute() keeps no memo of earlier computations that deactivation does not clear. No numerical equality."),
+            "the scale-derived spacing on both paths, that update() leaves early only for accepted reasons, that compute() keeps no memo of earlier computations that deactivation does not clear, and that the paint update shrinks overlapped nodes before the painted node is measured. No numerical equality."),
     "C09": ("part", "4 C09",
             "trigger matrix + provenance analysis of the two frame indices at every IoU kernel call against the edge endpoints; label-value taint analysis of the kernel; def-use memo detection",
             "Decides triggers, ordering, that bulk and incremental paths hand the kernel the source's and the target's own frames for every "
@@ -67,19 +67,19 @@ CHECKS = {
     "C12": ("part", "4 C12",
             "CFG dominance and must-pass-through (validation before construction, uniqueness before renumbering, each structural validator), error-discipline check of validator verdicts, id-truthiness lint",
             "Decides the rejection half: malformed sources cannot reach construction, no validator verdict is dropped, renumbering uses one "
-            "mapping after the uniqueness check without silently losing links, renaming reads from the original container, source ids are never tested by truthiness, and a structural validator can be skipped only for a reason about its own input."),
+            "mapping after the uniqueness check without silently losing links, renaming reads from the original container, source ids are never tested by truthiness, a structural validator can be skipped only for a reason about its own input, and a builder's header is read on every path before build()."),
     "C13": ("core", "4 C13",
             "fresh-destination / source-only-read discipline, time-index agreement, guard-shape of the relabel shortcut",
             "Decides the no-chaining mechanism (fresh zero destination, masks read only from the source at the written frame), the joint "
-            "offset of graph and id array, that relabelling is skipped only for position-wise equal ids, and that the seg-id lookup of a frame is built inside that frame's iteration. Not pixel equality."),
+            "offset of graph and id array, that relabelling is skipped only for position-wise equal ids, that the seg-id lookup of a frame is built inside that frame's iteration, and that per-frame image files are stacked in numeric order. Not pixel equality."),
     "C14": ("part", "4 C14",
             "writer/reader table agreement with constant folding of the axis tables; guard-shape of per-key id detection; id-truthiness lint",
             "Decides that writer and reader agree on attribute keys, registry schema, file names, axis order (ndim 3 and 4) and CSV keys, and "
-            "that loaded ids are kept per key, and that the missing-value mask of a loaded property survives renaming. Does not decide value equality or third-party formats."),
+            "that loaded ids are kept per key, that the missing-value mask of a loaded property survives renaming, that ids read back are not tested by truthiness, and that a rebuilt export graph keeps edge attributes. Does not decide value equality or third-party formats."),
     "C15": ("core", "4 C15",
             "taint analysis of the selection parameter, identity of the closed set across outputs, loop shape / loop invariant of the closure",
             "Decides that the selection reaches rows, subgraph and mask only as its ancestor closure (one set everywhere, membership mask for "
-            "pixels) and that the closure adds the ancestors of every selected node (nx.ancestors per node, or a hand-written parent walk decided by its loop invariant)."),
+            "pixels) and that the closure adds the ancestors of every selected node (nx.ancestors per node, a verified worklist helper, or a hand-written parent walk decided by its loop invariant), that facades forward the selection unchanged, and that the export modules keep no memo between exports."),
     "C16": ("whole*", "4 C16",
             "interprocedural write-effect analysis over access paths rooted at the tracks object (aliases, views, copies by depth)",
             "Decides that no read-only entry point (exporters, savers, ~50 query methods) can write storage reachable from the tracks object; "
